@@ -23,6 +23,25 @@ type tnode struct {
 	dir  bool
 	data []byte
 	kids []*tnode
+	rsrc []byte // stored resource fork (side file .rsrc_<name>), download trees only
+	info bool   // stored information fork (side file .info_<name>) with a comment, download trees only
+}
+
+// decorate gives some files of a download tree stored fork side files (left by uploads made while
+// PreserveResourceForks was on, or put there by the operator).
+func decorate(rt *rapid.T, label string, kids []*tnode) {
+	for i, k := range kids {
+		l := fmt.Sprintf("%s_%d", label, i)
+		if k.dir {
+			decorate(rt, l, k.kids)
+			continue
+		}
+		if len(k.name) > 200 || rapid.IntRange(0, 3).Draw(rt, l+"_forks") != 0 {
+			continue
+		}
+		k.rsrc = genBytes(rt, l+"_rsrc", rapid.IntRange(1, 300).Draw(rt, l+"_rsrclen"))
+		k.info = rapid.Bool().Draw(rt, l+"_info")
+	}
 }
 
 var treeNameRunes = []rune("abcdefghijklmnopqrstuvwxyzABCXYZ0123456789 _-+()&!,=#")
@@ -114,6 +133,13 @@ func writeTree(dir string, kids []*tnode) {
 			writeTree(p, k.kids)
 		} else {
 			must(os.WriteFile(p, k.data, 0o644))
+			if k.rsrc != nil {
+				must(os.WriteFile(filepath.Join(dir, ".rsrc_"+k.name), k.rsrc, 0o644))
+			}
+			if k.info {
+				inf := hlref.InfoFork{Platform: [4]byte{'A', 'M', 'A', 'C'}, Type: [4]byte{'T', 'E', 'X', 'T'}, Creator: [4]byte{'t', 't', 'x', 't'}, Name: []byte(k.name), Comment: []byte("stored comment")}
+				must(os.WriteFile(filepath.Join(dir, ".info_"+k.name), inf.Encode(), 0o644))
+			}
 		}
 	}
 }
@@ -122,6 +148,7 @@ type flatItem struct {
 	path []string
 	dir  bool
 	data []byte
+	rsrc []byte
 }
 
 // flatten lists the tree depth-first in lexical order; visibleOnly drops entries whose
@@ -132,7 +159,7 @@ func flatten(prefix []string, kids []*tnode, visibleOnly bool) []flatItem {
 	for _, k := range sortKids(kids) {
 		p := append(append([]string{}, prefix...), k.name)
 		if !visibleOnly || !strings.HasPrefix(k.name, ".") {
-			out = append(out, flatItem{path: p, dir: k.dir, data: k.data})
+			out = append(out, flatItem{path: p, dir: k.dir, data: k.data, rsrc: k.rsrc})
 		}
 		if k.dir {
 			out = append(out, flatten(p, k.kids, visibleOnly)...)
@@ -272,14 +299,37 @@ func downloadFolder(rt *rapid.T, w *hlsim.World, c *hlsim.Conn, folder string, f
 			if err != nil {
 				rt.Fatalf("folder download: file %q: stream after the size prefix is not a flattened-file header: %v (%s)", strings.Join(x.path, "/"), err, hexs(it.Data))
 			}
+			if x.rsrc != nil {
+				// a file with stored fork side files.  What the server does with them in a folder download is not pinned down by
+				// the statement (it sends the stored resource fork when an information fork is stored too, and not when the
+				// file is resumed); what is checked is that the item agrees with its own header: the data fork is content[k:],
+				// and a header that announces three forks is followed by the stored resource fork - otherwise the client waits
+				// for a fork that never comes and the rest of the tree is lost.  (The size prefix is not compared for these
+				// files: like the transfer size of a single download with a stored resource fork - which C08 leaves out for the
+				// same reason - it does not count that fork's header.)
+				data := it.Data[p.HeaderLen:]
+				if len(data) < len(x.data)-k || !bytes.Equal(data[:len(x.data)-k], x.data[k:]) {
+					rt.Fatalf("folder download: file %q (with stored fork side files): the bytes after the header do not start with content[%d:] (%d bytes follow, first difference at %d)", strings.Join(x.path, "/"), k, len(data), firstDiff(data[:min(len(data), len(x.data)-k)], x.data[k:]))
+				}
+				rest := data[len(x.data)-k:]
+				fork := append(hlref.ForkHeader("MACR", len(x.rsrc)), x.rsrc...)
+				switch {
+				case ch.act == 1 && p.ForkCount == 3 && !bytes.Equal(rest, fork):
+					rt.Fatalf("folder download: file %q: the header announces 3 forks and the file has a stored resource fork of %d bytes, but after the data fork come %d bytes that are not that fork (PreserveResourceForks=%v)", strings.Join(x.path, "/"), len(x.rsrc), len(rest), w.Srv.Config.PreserveResourceForks)
+				case len(rest) != 0 && !bytes.Equal(rest, fork):
+					rt.Fatalf("folder download: file %q: %d stray bytes after the data fork that are not the stored resource fork", strings.Join(x.path, "/"), len(rest))
+				}
+				continue
+			}
 			if it.Size != len(it.Data) {
 				rt.Fatalf("folder download: file %q (size %d, action %d offset %d): size prefix %d but %d bytes follow", strings.Join(x.path, "/"), len(x.data), ch.act, k, it.Size, len(it.Data))
 			}
-			if it.Size != p.HeaderLen+len(x.data)-k {
+			tail := x.data[k:]
+			if it.Size != p.HeaderLen+len(tail) {
 				rt.Fatalf("folder download: file %q: size prefix %d, expected header %d + data %d - offset %d", strings.Join(x.path, "/"), it.Size, p.HeaderLen, len(x.data), k)
 			}
-			if !bytes.Equal(it.Data[p.HeaderLen:], x.data[k:]) {
-				rt.Fatalf("folder download: file %q: bytes after the header are not content[%d:] (first difference at %d)", strings.Join(x.path, "/"), k, firstDiff(it.Data[p.HeaderLen:], x.data[k:]))
+			if !bytes.Equal(it.Data[p.HeaderLen:], tail) {
+				rt.Fatalf("folder download: file %q: bytes after the header are not content[%d:] (first difference at %d)", strings.Join(x.path, "/"), k, firstDiff(it.Data[p.HeaderLen:], tail))
 			}
 		}
 	}
@@ -302,11 +352,13 @@ func c10download(ev *evid.Rec) func(rt *rapid.T) {
 		}
 		kids := genTree(rt, "t", 0, &budget, true)
 		kids = wideFolder(rt, kids)
+		decorate(rt, "f", kids)
+		preserve := rapid.Bool().Draw(rt, "preserveResourceForks") // the option governs what uploads keep, not what downloads send
 		script := rapid.SliceOfN(rapid.IntRange(0, 9), 60, 60).Draw(rt, "script")
 		offs := rapid.SliceOfN(rapid.IntRange(0, 1000), 60, 60).Draw(rt, "offsets")
 		own := rapid.IntRange(0, 3).Draw(rt, "ownroot") == 0
 		nta := 0
-		inWorld(rt, hlsim.Options{Agreement: "a", Accounts: []hlsim.AccountSpec{acct("admin", "Admin", "adminpw", allAccess)}}, func(rt *rapid.T, w *hlsim.World) {
+		inWorld(rt, hlsim.Options{Agreement: "a", PreserveResourceForks: preserve, Accounts: []hlsim.AccountSpec{acct("admin", "Admin", "adminpw", allAccess)}}, func(rt *rapid.T, w *hlsim.World) {
 			froot := w.FileRoot
 			if own {
 				// the account has a file root of its own; the server-wide root has a folder of the same name with other content
